@@ -5,6 +5,8 @@
 EXTENDS MC_DistHeader, Json, IOUtils
 AtomN(i) == VAtom(<<97 + ((i \div 676) % 26), 97 + ((i \div 26) % 26), 97 + (i % 26)>>)
 LongAtom(n, c) == VAtom([j \in 1..n |-> c])
+\* n two-byte characters (e-acute): 2n bytes but only n characters -- lengths in the format count bytes
+WideAtom(n) == VAtom([j \in 1..(2 * n) |-> IF j % 2 = 1 THEN 195 ELSE 169])
 Ctl == VTuple(<<SmallInt(5)>>)
 PidOf(a) == VPid(a, <<0,0,0,1>>, <<0,0,0,2>>, <<0,0,0,3>>, <<>>)
 EncoderCases ==
@@ -17,6 +19,10 @@ EncoderCases ==
          [terms |-> <<VTuple(<<SmallInt(2), VAtom(<<>>), PidOf(AtomN(1))>>),
                       VFun(1, [i \in 1..16 |-> i], <<0,0,0,1>>, AtomN(3), SmallInt(1), SmallInt(2), PidOf(AtomN(4)), <<AtomN(5), VExport(AtomN(6), AtomN(3), 2)>>)>>, atoms |-> 6],
          [terms |-> <<VTuple(<<SmallInt(2), SmallInt(1), SmallInt(2)>>), VBin(<<1, 2, 3>>)>>, atoms |-> 0],
+         [terms |-> <<Ctl, VTuple(<<WideAtom(127), AtomN(1)>>)>>, atoms |-> 2],          \* 254 bytes
+         [terms |-> <<Ctl, VTuple(<<WideAtom(128), AtomN(1)>>)>>, atoms |-> 2],          \* 256 bytes, 128 characters
+         [terms |-> <<Ctl, VTuple(<<AtomN(1), WideAtom(200), AtomN(2)>>)>>, atoms |-> 3], \* 400 bytes, 200 characters
+         [terms |-> <<Ctl, VTuple(<<WideAtom(255)>>)>>, atoms |-> 1],                     \* 510 bytes, 255 characters
          [terms |-> <<VTuple(<<SmallInt(2), VAtom(<<195, 169>>), VAtom(<<226, 130, 172>>)>>), VMap(<< <<VAtom(<<195, 169>>), LongAtom(256, 99)>> >>)>>, atoms |-> 3] }
 ASSUME IOEnv.MODE # "cases" \/ ndJsonSerialize(IOEnv.OUT, SetToSeq(EncoderCases))
 Emit == PrintT(ToJson([from |-> [s |-> sCache, r |-> rCache, n |-> sent], act |-> [bytes |-> last'.bytes, nterms |-> Len(last'.terms)],
